@@ -127,9 +127,29 @@ def run_shipped(scenario: Path, work: Path, steps: int, trace_path: Path, *, wit
     rp = world.load(scenario, work / "out", sim_overrides=sim_overrides, write_outputs=write_outputs, suffix=suffix)
     tr = tracer.Tracer(trace_path, with_route=with_route, with_index=with_index, run_id=run_id)
     rp = set_generators(rp, builtin_generators(rp.e, _emit_to(tr)))
-    rp = crank_traced(rp, steps, tr, {"builtin": True, "scenario": str(scenario.name)})
+    extra = {"builtin": True, "scenario": str(scenario.name)}
+    extra.update(scenario_inputs(scenario, sim_overrides))
+    rp = crank_traced(rp, steps, tr, extra)
     tr.close()
     return rp, tr
+
+
+def scenario_inputs(scenario: Path, sim_overrides: Optional[Dict[str, Any]] = None) -> Dict[str, Any]:
+    """the request timeout and the step length as the scenario FILE states them (nothing if it leaves them to the defaults)"""
+    out: Dict[str, Any] = {}
+    try:
+        import yaml
+
+        with open(scenario) as f:
+            sim = (yaml.safe_load(f) or {}).get("sim") or {}
+        sim = dict(sim, **(sim_overrides or {}))
+        if "request_cancel_time_seconds" in sim:
+            out["cancel"] = int(sim["request_cancel_time_seconds"])
+        if "timestep_duration_seconds" in sim:
+            out["dt_cfg"] = int(sim["timestep_duration_seconds"])
+    except Exception:
+        pass
+    return out
 
 
 def preload_requests(rp, reqs: List[Dict[str, Any]]):
@@ -357,6 +377,10 @@ def run_adv(seed: int, work: Path, trace_path: Path, *, steps: int = 40, mix: Op
     only_builtin_dispatches = "builtin" in parts and not acts and all(
         p in ("builtin", "charge", "queue") or (p == "adv" and no_trips) for p in parts)
     extra = {"builtin": all(p == "builtin" for p in parts) or only_builtin_dispatches, "scenario": f"adv{seed}", "mix": mix}
+    # the timeout and the step length are the INPUT's (what the scenario file says), not what the loaded configuration reports
+    # back: a loader that "normalises" them must not move the deadlines the monitors compute
+    extra["cancel"] = int(w.get("cancel", 600))
+    extra["dt_cfg"] = int(w["dt"])
     if acts:
         # a co-simulation user acts on the payload between calls of crank
         done = 0
